@@ -136,6 +136,17 @@ class Registry:
             raise AnalysisError(f"{TM}.add_task created {len(self.tasks) - before} tasks")
         return self.tasks[-1]
 
+    def try_add(self, name, key):
+        """add_task as a caller sees it: the task started for this call, or None when the registry started none"""
+        before = len(self.tasks)
+        closed = []
+        coro = Obj(None, {"close": Native(lambda a, k: closed.append(1), "close")}, name="coroutine")
+        try:
+            self._run("add_task", [coro, name, key])
+        except PyRaise as e:
+            return f"raises {e.what}"
+        return self.tasks[-1] if len(self.tasks) == before + 1 else None
+
     def cancel_key(self, key):
         try:
             self._run("cancel_key_tasks", [key])
@@ -164,9 +175,23 @@ def check_registry(ctx, repo, rule, pump_key=None, only=None):
     keys = used_keys(repo)
     ks = sorted(keys)
     ctx.floor(rule, "task-domain keys in use", len(ks), 4)
-    want = set(only or ("isolation", "forgotten", "gather", "tidy"))
+    want = set(only or ("isolation", "forgotten", "gather", "tidy", "same-name"))
     R = Registry(repo)
     loc = repo.method(TM, "cancel_key_tasks").loc
+    if "same-name" in want:
+        # every call starts its task: commands issued through the blocking twins run as tasks with FIXED names ("Set value
+        # task", "Button press task") - a second one while the first is still waiting for the lock or its
+        # acknowledgement is another command, not a duplicate
+        R.fresh()
+        first = R.add("Set value task", ks[0])
+        second = R.try_add("Set value task", ks[0])
+        third = R.try_add("Set value task", ks[-1])
+        ctx.ob(rule, "add_task::starts-a-task-for-every-call", isinstance(second, Obj) and second is not first and isinstance(third, Obj),
+               f"a second add_task with the name and key of a task that is still running gives {second if not isinstance(second, Obj) else 'a task'!r} (same name under another key: "
+               f"{third if not isinstance(third, Obj) else 'a task'!r}): the coroutine handed over is never run - a command issued while the previous one is in flight is dropped without an error",
+               repo.method(TM, "add_task").loc, sample={"rule": rule, "scenario": "same name and key twice"})
+        if not (isinstance(second, Obj) and second is not first and isinstance(third, Obj)):
+            return ks      # the registry refuses tasks: the scenarios below (which register same-named tasks) do not apply
     if "isolation" in want:
         n = 0
         for k2 in ks:
